@@ -156,6 +156,16 @@ class Inliner:
         recv = None
         if isinstance(fn, ast.Name):
             g = f.module.funcs.get(fn.id)
+            if g is None:
+                # a new helper that lives in another module of the package and is imported by name: inlined when
+                # its body mentions nothing but its own parameters / locals, builtins and names that mean the same
+                # thing in the caller's module
+                imp = f.module.imports.get(fn.id)
+                if imp is not None and imp[0] == "pkg" and imp[2] is not None:
+                    src = self.P.modules.get(imp[1])
+                    g2 = src.funcs.get(imp[2]) if src is not None else None
+                    if g2 is not None and g2.qual not in KNOWN_FUNCS and self._portable(g2, f.module):
+                        return self._check(g2, f, call, None, cross=True)
         elif isinstance(fn, ast.Attribute) and isinstance(fn.value, ast.Name) and f.cls is not None:
             if fn.value.id == (f.params[0] if f.params and not f.is_static else None) or fn.value.id == f.cls.name:
                 g = f.cls.methods.get(fn.attr)
@@ -165,6 +175,22 @@ class Inliner:
                     g = None  # Class.method(obj, ..) form: leave alone
         if g is None or g is f or g.qual in KNOWN_FUNCS or g.module is not f.module or g.module.is_tools:
             return None
+        return self._check(g, f, call, recv)
+
+    def _portable(self, g, module):
+        import builtins
+        bound = set(g.all_params()) | _locals(g.node)
+        for n in ast.walk(g.node):
+            if isinstance(n, ast.Name) and isinstance(n.ctx, ast.Load) and n.id not in bound:
+                if hasattr(builtins, n.id):
+                    continue
+                a, b = g.module.imports.get(n.id), module.imports.get(n.id)
+                if a is not None and a == b:
+                    continue
+                return False
+        return True
+
+    def _check(self, g, f, call, recv, cross=False):
         if g.is_generator or g.vararg or g.kwarg or g.nested or g.is_template or g.is_property or g.is_setter:
             return None
         if any(d not in ("staticmethod", "classmethod") for d in g.decos):
@@ -269,7 +295,7 @@ class Inliner:
             for c in ast.walk(f.node):
                 if isinstance(c, ast.Call):
                     fn = c.func
-                    if (isinstance(fn, ast.Name) and fn.id == g.name and g.cls is None and f.module is g.module) or \
+                    if (isinstance(fn, ast.Name) and fn.id == g.name and g.cls is None and (f.module is g.module or f.module.imports.get(fn.id, (None, None, None))[1] == g.module.name)) or \
                             (isinstance(fn, ast.Attribute) and fn.attr == g.name and g.cls is not None):
                         n += 1
         return n
